@@ -566,7 +566,12 @@ func doTypesConflict(walker *Walker, type1 *ast.Type, type2 *ast.Type) bool {
 
 	t1 := walker.Schema.Types[type1.NamedType]
 	t2 := walker.Schema.Types[type2.NamedType]
-	if (t1.Kind == ast.Scalar || t1.Kind == ast.Enum) && (t2.Kind == ast.Scalar || t2.Kind == ast.Enum) {
+	if t1 == nil || t2 == nil {
+		// an unknown type is reported by KnownTypeNames, there is nothing to compare here
+		return false
+	}
+	// a leaf type has the same response shape only as itself, be the other type a leaf or not
+	if t1.IsLeafType() || t2.IsLeafType() {
 		return t1.Name != t2.Name
 	}
 
